@@ -147,7 +147,8 @@ impl<T, U> Framed<T, U> {
 //@insert loop_end=1
             proof {
                 // what the transport accepted (a prefix of the buffer) is exactly what has been removed from the buffer
-                assert(b0.subrange(0, n as int) + b0.subrange(n as int, b0.len() as int) =~= b0);
+                let k = b0.len() - self.write_buf@.len();      // bytes taken off the front in this iteration
+                assert(b0.subrange(0, k) + b0.subrange(k, b0.len() as int) =~= b0);
                 assert(self.io.written() + self.write_buf@ =~= old(self).io.written() + old(self).write_buf@);
             }
 //@end
